@@ -65,11 +65,15 @@ def gen_workload(rng, mode):
     # aligned selector: a whole-document select whose membership is compared element by element (O2)
     anchors = []
     for si, sp in enumerate(specs):
-        for feat in gen.markup_features(sp['markup']):
+        for feat in gen.markup_features(sp['markup'], nsattr=True):
             if rng.random() < 0.6:
-                keys.append({'pattern': rng.choice(gen.FEATURE_POOLS[feat]), 'ns': None, 'custom': None, 'flags': 0,
-                             'uses_scope': False, 'special': 0})
+                keys.append(gen.feature_key(rng, feat))
                 anchors.append((si, len(keys) - 1))
+                if feat == 'nsattr':
+                    # the same question goes to every XML document of the run (they may bind the prefix differently)
+                    for sj, sq in enumerate(specs):
+                        if sj != si and sq['parser'] == 'xml':
+                            anchors.append((sj, len(keys) - 1))
     if any(sp['parser'] == 'xml' or sp['markup'].startswith('<?xml') for sp in specs):
         for _ in range(rng.randint(1, 4)):
             pat, ns = rng.choice(gen.XML_STATEFUL_POOL)
@@ -180,7 +184,29 @@ def gen_workload(rng, mode):
             history.append({'op': 'purge'})
         if anchors and rng.random() < 0.25:
             si, k = anchors[rng.randrange(len(anchors))]
+            others = sorted({sj for sj, kj in anchors if kj == k and sj != si})
+            if others and mode != 'nochurn' and rng.random() < 0.3:
+                # the same question to every document it is aligned with, one after the other (what the library may
+                # remember from one document must not leak into the answer for the next)
+                rng.shuffle(others)
+                for sj in others[:3]:
+                    wj = [s for s, sidx in enumerate(cur) if sidx == sj]
+                    if not wj:
+                        s = rng.randrange(len(cur))
+                        cur[s] = sj
+                        history.append({'op': 'churn', 'doc': s, 'spec': sj})
+                        wj = [s]
+                    history.append({'op': 'call', 'entry': rng.choice(['select', 'select', 'iselect', 'filter']), 'key': k,
+                                    'doc': rng.choice(wj), 'target': -1, 'form': rng.choice(['module', 'compiled', 'precompiled']),
+                                    'limit': 0, 'o2': True})
+                    calls.append(len(history) - 1)
             where = [s for s, sidx in enumerate(cur) if sidx == si]
+            if not where and mode != 'nochurn' and rng.random() < 0.5:
+                # the document this question is aligned with is not loaded right now: load it into some slot first
+                s = rng.randrange(len(cur))
+                cur[s] = si
+                history.append({'op': 'churn', 'doc': s, 'spec': si})
+                where = [s]
             if where:
                 history.append({'op': 'call', 'entry': rng.choice(['select', 'select', 'iselect', 'filter', 'closest']),
                                 'key': k, 'doc': rng.choice(where), 'target': -1 if rng.random() < 0.8 else rng.randint(0, 60),
@@ -387,6 +413,18 @@ def execute(sv, w, o2_seed=0, o2_rate=0.35, pristine_checks=2):
                 pristine[ck] = runner.isolated(_alone, sv, w, ss, op, hang_s=20)
             except RuntimeError:
                 pass
+    # The reference pass below makes one call after the other in ONE process.  A second pass makes the same calls in
+    # the reverse order in a forked child of the still pristine process: if the library remembers anything across calls
+    # that is keyed on too little, the two passes disagree on some call - the references themselves are then
+    # history-dependent.
+    refb = None
+    if pristine_checks and len(order) > 1:
+        from sim import runner
+        try:
+            refb = runner.isolated(_ref_pass_reversed, sv, w, [(ck, need[ck][0], need[ck][1]) for ck in reversed(order)],
+                                   hang_s=30)
+        except Exception:  # noqa: BLE001 - killed at the deadline / died: no second opinion for this run
+            refb = None
     ref = {}
     ref_len = {}
     faulted_keys = {_call_key(op, plan[i]) for i, op in enumerate(history) if op['op'] == 'call' and op.get('fault')}
@@ -414,6 +452,18 @@ def execute(sv, w, o2_seed=0, o2_rate=0.35, pristine_checks=2):
         return {'discarded': 'slow-operation-in-reference-pass'}
     probe('reference_calls', len(ref))
     early = None
+    if isinstance(refb, dict):
+        probe('reference_pass_repeated_in_reverse_order_in_a_pristine_process')
+        for ck in order:
+            if ck in refb and ck in ref and refb[ck] != ref[ck]:
+                op, ss = need[ck]
+                early = {'oracle': 'O1-history', 'step': -1, 'call': _as_call(op),
+                         'pattern': w['keys'][op['key']]['pattern'], 'expected': _j(refb[ck]), 'observed': _j(ref[ck]),
+                         'detail': 'the same call, alone on a fresh copy, answers differently depending on which other '
+                                   'calls the process made before it (reference pass in shuffled order vs the reverse '
+                                   'order in a pristine process)'}
+                break
+
     for ck, alone in pristine.items():
         probe('reference_calls_cross_checked_in_pristine_process')
         if alone != ref[ck] and early is None:
@@ -475,7 +525,7 @@ def execute(sv, w, o2_seed=0, o2_rate=0.35, pristine_checks=2):
                     out = ops.run_op(ctx, call)
                 except BaseException as e:  # noqa: BLE001
                     sys.settrace(None)
-                    out = ('exc', type(e).__name__, fp.short(e))
+                    out = fp.fp_exc(e)
                 finally:
                     sys.settrace(None)
                 if tr.fired:
@@ -560,7 +610,7 @@ def execute(sv, w, o2_seed=0, o2_rate=0.35, pristine_checks=2):
                         break
                     g['got'].append(ops._any_index(ctx, g['slot'], el))
             except BaseException as e:  # noqa: BLE001
-                err = ('exc', type(e).__name__, fp.short(e))
+                err = fp.fp_exc(e)
                 g['dead'] = True
             finally:
                 sys.settrace(None)
@@ -655,6 +705,19 @@ def execute(sv, w, o2_seed=0, o2_rate=0.35, pristine_checks=2):
                            or probes.get('fault:exc@step') or probes.get('doc_id_reused')
                            or probes.get('fault:tree-edit')),
     }
+
+
+def _ref_pass_reversed(sv, w, items):
+    out = {}
+    try:
+        with env.wall_guard(20.0):
+            for ck, op, ss in items:
+                env.canonical_state(sv)
+                ctx = _ref_ctx(sv, w, ss, _needed_slots(op))
+                out[ck] = ops.safe_run(ctx, _as_call(op))
+    except env.SlowOperation:
+        return None
+    return out
 
 
 def _alone(sv, w, ss, op):
@@ -1194,7 +1257,8 @@ ASSUMPTIONS = [
     'O2 is applied only to selectors without :scope/& and, for filter/closest/select_one/limit>0, only in the direction '
     '"returned => matches alone", so entry-point ranging rules (C03) cannot raise a C04 alarm',
     'natural exceptions of the matcher (C08\'s subject) count as answers: they must be the same with and without history',
-    'fault points are the line and function-entry events of frames under <repo>/soupsieve/ (sys.settrace)',
+    'fault points are the function-entry and function-return events of frames under <repo>/soupsieve/ (sys.settrace)',
+    'after a user edit the reference is the same call on a freshly parsed copy to which the same edits were applied',
     'seeded sampling of histories, not exhaustive enumeration',
 ]
 
@@ -1205,11 +1269,13 @@ def evidence(agg, info, plan_, tier):
     cov = {
         'evaluations': agg.runs,
         'distinct_nontrivial': len(agg.sets.get('sigs', ())),
-        'rule': 'one evaluation = one history of 15-60 steps (plain calls on 6 entry points x 3 forms, suspended iselect '
-                'generators resumed/closed/abandoned in between, document churn, purge, injected exceptions) over 1-3 live '
-                'documents; non-trivial = the history resumed a generator after a peer query, or repeated an earlier '
-                'call, or had a fault fire inside a call, or recycled a document id; distinct = distinct hash of '
-                '(sequence of step kinds, set of reach probes hit)',
+        'rule': 'one evaluation = one history of 15-60 steps (plain calls on 6 entry points x 4 forms, suspended iselect '
+                'generators resumed/closed/abandoned in between, document churn, user edits of the live tree, purge, '
+                'injected exceptions) over 1-3 live documents, preceded by the reference pass (every distinct call alone) '
+                'made twice: in this process and, in the reverse order, in a pristine forked child; non-trivial = the '
+                'history resumed a generator after a peer query, or repeated an earlier call, or had a fault fire inside '
+                'a call, or recycled a document id, or edited a tree; distinct = distinct hash of (sequence of step kinds, '
+                'set of reach probes hit)',
         'samples': agg.samples[:3],
         'seeds': agg.runs,
         'history_steps': c.get('steps', 0),
